@@ -356,6 +356,42 @@ theorem C19_next_report_about_next_bundle (cfg : Cfg) (st : St) (now now' : Nat)
   have hq1 : (doFwd cfg st now sp).1.fwdQ = c1 :: q := by rw [doFwd_fwdQ, hq]; rfl
   exact (C19_forward_report_subject cfg _ now' sp' c1 q hq1).1
 
+/-- **A fragment held for reassembly produces no delivery report.** For an accepted fragment
+    whose reassembly step does not raise: it is not delivered, and no report asserts delivery
+    (at its destination the step clears the action record: nothing at all is emitted). -/
+theorem C19_fragment_held_no_delivery_report (cfg : Cfg) (st : St) (now : Nat) (rx : RxBundle)
+    (hacc : accepted cfg st rx) (hf : isFragment rx.primary.flags = true)
+    (hr : rx.reasmRaises = false) :
+    (∀ i, Effect.delivered i ∉ (recvBundle cfg st now rx).2)
+    ∧ ∀ i rep rc, Effect.report i rep rc ∈ (recvBundle cfg st now rx).2 → rep.delivered = .no := by
+  rw [recv_accepted cfg st now rx hacc, dispose_eff, rxChain_eq]
+  obtain ⟨c, hc, hnd⟩ := chain_fragment_no_deliver cfg rx now
+    (({ primary := rx.primary, rptNone := rx.rptNone, blocks := rx.blocks } : Ctr).record .receive now) rfl hf hr
+  rw [hc]
+  have hrep : ∀ i rep rc, Effect.report i rep rc ∈ finishEff c → rep.delivered = .no := by
+    intro i rep rc hm
+    obtain ⟨rep', hrep, he⟩ := finishEff_mem _ _ hm
+    simp only [Effect.report.injEq] at he
+    obtain ⟨_, rfl, _⟩ := he
+    rw [reportFor_some _ _ hrep]
+    exact statusFor_absent _ _ hnd
+  simp only [hnd, Bool.false_eq_true, if_false, List.nil_append]
+  constructor
+  · intro i hm
+    split at hm
+    · obtain ⟨_, _, h⟩ := finishEff_mem _ _ hm; simp at h
+    · split at hm <;> simp at hm
+  · intro i rep rc hm
+    split at hm
+    · exact hrep i rep rc hm
+    · split at hm <;> simp at hm
+
+-- a fragment for the node's own endpoint requesting delivery and reception reports: nothing is emitted
+example : (recvBundle { nodeId := .dtn [1], rxRoutes := [] } {} 5
+      { primary := { dest := .dtn [1], src := .dtn [3], rpt := .dtn [4], ts := ⟨4, 0⟩, flags := 0x24001,
+                     fragOff := 0, totalLen := 8 },
+        blocks := [{ c := { typeCode := 1, blockNum := 1, btsd := some [1, 2, 3, 4] } }] }).2 = [] := by decide
+
 end C19
 end Props
 end DtnVerif
